@@ -2,7 +2,7 @@
    MiniEgo VM model; proofs live in Proofs.v. *)
 From Coq Require Import ZArith NArith List Bool.
 Import ListNotations.
-From VM Require Import Model Proofs Shape Shape2.
+From VM Require Import Model Proofs Shape Shape2 TryMarker.
 Open Scope nat_scope.
 
 (* A catchable error raised in ANY running context whose innermost live try entry is number k and whose try
@@ -287,3 +287,31 @@ Proof.
   cbn zeta. split; [split; cbn; auto|]. split; [vm_compute; reflexivity|]. split; [vm_compute; reflexivity|].
   apply run_preserves_shape; [split; cbn; auto|vm_compute; reflexivity].
 Qed.
+
+(* ------------------------------------------------------------------ the try-marker premise, compiled shape *)
+(* For a try block as the compiler emits it (Try a; Push marker<try>; body) whose body is made of value-level
+   instructions (value_instr: no nested try, no other marker, no call/return): entering the block establishes
+   "the first non-value item below the top of the stack is the try marker, and entry a is on top of the try
+   stack"; every value-level instruction that completes keeps it; and it yields the premises of C10_catch_once
+   (live innermost entry, marker present with no try marker above).  partial: bodies containing calls, nested
+   try blocks or other markers (let/call) are not covered -- observed by the correspondence. *)
+Theorem C10_try_marker_present_partial :
+  (forall child p g c a,
+     exists c2, exec child p g c (ITry a) = (g, set_trys c (a :: c_trys c), None) /\
+                exec child p g (set_trys c (a :: c_trys c)) (IPushMark L_try) = (g, c2, None) /\
+                marker_next (c_stack c2) = true /\ c_trys c2 = a :: c_trys c) /\
+  (forall child p g c i g' c',
+     value_instr i = true -> marker_next (c_stack c) = true -> exec child p g c i = (g', c', None) ->
+     marker_next (c_stack c') = true /\ c_trys c' = c_trys c) /\
+  (forall c a t,
+     marker_next (c_stack c) = true -> c_trys c = a :: t -> a <> 0 ->
+     find_live (c_trys c) = Some 0 /\
+     exists above below, c_stack c = above ++ ItM L_try :: below /\ Forall no_try_marker above).
+Proof. exact (conj try_entry (conj value_instr_keeps_marker marker_next_premises)). Qed.
+
+Example C10_try_marker_present_nonvacuous :
+  let c := set_stack (init_ctx false) [ItV (VInt 1); ItV (VInt 0); ItM L_try; ItV (VInt 9)] in
+  marker_next (c_stack c) = true /\ value_instr (IBin BAdd) = true /\
+  exists c', exec (fun g _ => (g, None)) [] init_glob c (IBin BAdd) = (init_glob, c', None) /\
+             marker_next (c_stack c') = true.
+Proof. cbn zeta. split; [reflexivity|]. split; [reflexivity|]. eexists. split; reflexivity. Qed.
